@@ -1,5 +1,5 @@
 (** * The remeshing kernels of the model are, verbatim, the programs that tools/tr_kern.py generates from
-    remeshing/cut.rs, remeshing/swap.rs, remeshing/collapse.rs (the two half-cell routines), cell_insertion/vertices.rs (single insertion) and triangulation/fan.rs (convex fan, with its loop) on every run (hand-written file, not generated). *)
+    remeshing/cut.rs, remeshing/swap.rs, remeshing/collapse.rs (the two half-cell routines and the two drivers that call them), cell_insertion/vertices.rs (single insertion) and triangulation/fan.rs (convex fan, with its loop) on every run (hand-written file, not generated). *)
 From Coq Require Import List NArith Bool.
 From HC Require Import Stm.Prog Map2.Ops2 Map2.Kern2 Map2.GenKern.
 Open Scope N_scope.
@@ -33,6 +33,18 @@ Proof. cbv beta zeta delta [gen_collapse_halfcell_to_midpoint collapse_halfcell_
 Lemma gen_collapse_halfcell_to_base_ok n ks d_pe d_e d_ne :
   gen_collapse_halfcell_to_base n ks d_pe d_e d_ne = collapse_halfcell_to_base n ks d_pe d_e d_ne.
 Proof. cbv beta zeta delta [gen_collapse_halfcell_to_base collapse_halfcell_to_base]. syn_eq; reflexivity. Qed.
+
+Lemma gen_collapse_edge_to_midpoint_ok n ks b0l l b1l b0r r b1r :
+  gen_collapse_edge_to_midpoint n ks b0l l b1l b0r r b1r = collapse_edge_to_midpoint n ks b0l l b1l b0r r b1r.
+Proof. cbv beta zeta delta [gen_collapse_edge_to_midpoint collapse_edge_to_midpoint]. syn_eq; reflexivity. Qed.
+Lemma gen_collapse_edge_to_base_ok n ks b0l l b1l b0r r b1r :
+  gen_collapse_edge_to_base n ks b0l l b1l b0r r b1r = collapse_edge_to_base n ks b0l l b1l b0r r b1r.
+Proof. cbv beta zeta delta [gen_collapse_edge_to_base collapse_edge_to_base]. syn_eq; reflexivity. Qed.
+
+Theorem collapse_drivers_are_the_source :
+  (forall n ks b0l l b1l b0r r b1r, gen_collapse_edge_to_midpoint n ks b0l l b1l b0r r b1r = collapse_edge_to_midpoint n ks b0l l b1l b0r r b1r) /\
+  (forall n ks b0l l b1l b0r r b1r, gen_collapse_edge_to_base n ks b0l l b1l b0r r b1r = collapse_edge_to_base n ks b0l l b1l b0r r b1r).
+Proof. split; intros; [apply gen_collapse_edge_to_midpoint_ok | apply gen_collapse_edge_to_base_ok]. Qed.
 
 Theorem collapse_halfcells_are_the_source :
   (forall n ks b0d d b1d, gen_collapse_halfcell_to_midpoint n ks b0d d b1d = collapse_halfcell_to_midpoint n ks b0d d b1d) /\
